@@ -118,6 +118,20 @@ def run(ctx):
             except Exception as e:   # noqa
                 ctx.fail('coarse_grid_solver(%s)/raises' % sname, repr(e), case)
                 continue
+            if sname == 'pinv' and kind != 'zero' and not cplx:
+                # hypotheses of C16_pseudo_inverse_minimum_norm_least_squares: the matrix X the solver applies (probed column by
+                # column) satisfies the four Penrose equations with A
+                try:
+                    Xp = np.column_stack([np.ravel(cgs(A, np.eye(n)[:, j])) for j in range(n)])
+                    sA = max(np.abs(Ad).max(), 1e-300)
+                    sX = max(np.abs(Xp).max(), 1e-300)
+                    pen = [np.abs(Ad @ Xp @ Ad - Ad).max() / sA, np.abs(Xp @ Ad @ Xp - Xp).max() / sX,
+                           np.abs((Ad @ Xp).T - Ad @ Xp).max(), np.abs((Xp @ Ad).T - Xp @ Ad).max()]
+                    ctx.count('oracle:penrose-equations')
+                    if max(pen) > 1e-8 * max(1.0, np.linalg.cond(Ad) if kind in ('spd', 'nonsym', 'pivot') else 1.0):
+                        ctx.fail('coarse/pinv/penrose-equations', 'A X A = A, X A X = X, (A X)^T = A X, (X A)^T = X A violated by %s' % ['%.2g' % v for v in pen], case)
+                except Exception as e:   # noqa
+                    ctx.fail('coarse/pinv/raises', repr(e), case)
             seq = []
             for k in range(6):
                 b = np.array([rng.uniform(-1, 1) for _ in range(n)])
